@@ -11,7 +11,7 @@ executed on the REAL code: every parameter of the method is handed to `Molecule`
 tensor (all names learned at once, so one forward pass and one reverse pass per output serve all names of
 a lattice row), `torch.autograd.grad` is taken with respect to the caller's ROOT tensors, and the
 directional derivative along one FIXED direction per parameter name is compared with a central finite
-difference (Richardson pair) of the same output of the same code.  The finite differences do not depend on
+difference (Richardson extrapolation on the stencil 2h, h, h/2 with an error estimate) of the same output of the same code.  The finite differences do not depend on
 tensor kind / backward mode / solver, so they are computed once per (method, molecule, base, name) in batches
 and shared by all lattice rows; every disagreement is re-evaluated in a fresh process with single-molecule
 finite differences before it is reported (DESIGN section 9).
@@ -71,21 +71,22 @@ RHO_ROOT = ("zeta_s", "zeta_p", "g_pp", "g_p2", "h_sp")  # enter rho1 / rho2 (ca
 # --- tolerances --------------------------------------------------------------------------------------------------
 # |ad - fd| <= RTOL[sb] * max(|ad|, |fd|) + ATOL[output]
 #   the statement: 1e-5 relative (1e-4 for the implicit adjoint, whose tolerance is the SCF eps).  Measured on the
-#   tree with the three proposed fixes applied, scf_eps = 1e-11, all methods/molecules/seeds: largest |ad - fd| is
-#   5 % of this limit for first order (2e-7 relative on density outputs, 1e-8 on energies) -> >= 20x head-room.
+#   tree with the three proposed C07 fixes applied, scf_eps = 1e-11 (thorough lattice seed 0, quick lattice seeds
+#   0..4): typical |ad - fd| is 1e-9..2e-7 relative; the largest error / limit per class is 0.10 (energies), 0.27
+#   (density outputs, unrolled Pulay), 0.06 (mixed), 0.002 (Hessian), 6e-6 (symmetry) -> head-room >= 3.7x, typically
+#   >= 10x.  Every run reports these ratios in evidence (largest_healthy_error_over_limit).
 RTOL = {0: 1e-5, 1: 1e-4, 2: 1e-5}
 #   absolute floor = finite-difference noise = output noise / step.  Energies are stationary in P (noise ~1e-12 eV,
 #   step 5e-4..1e-3 -> 2e-9), density outputs and forces carry the SCF error of P linearly (<= ~1e-10 -> 2e-7;
 #   forces 1e-9..1e-8 eV/A -> 1e-5).  x10 / x5 / x2 head-room.
 ATOL = {"Etot": 2e-8, "Hf": 2e-8, "e_mo": 1e-6, "gap": 1e-6, "q": 1e-6, "force": 2e-8, "mixed": 2e-5}
 ZERO = {"Etot": 1e-9, "Hf": 1e-9, "e_mo": 1e-7, "gap": 1e-7, "q": 1e-7, "mixed": 1e-6}  # |fd| below: independent
-H_PAR = 1e-3  # parameter step in units of the direction (which has the parameter's own scale); pair (h, h/2)
-H_GEO = 2e-3  # Angstrom; pair (h, h/2)
+H_PAR = 1e-3  # parameter step in units of the direction (which has the parameter's own scale); stencil (2h, h, h/2)
+H_GEO = 2e-3  # Angstrom; stencil (2h, h, h/2)
 # stencil (2h, h, h/2): the reported error estimate |R(2h,h) - R(h,h/2)| is ~15x the remainder of the value used;
 # the finite difference is used when the estimate is below ROUGH_K x the comparison limit (remainder <= limit / 15)
 ROUGH_K = 1.0
-# second order, relative to max|H| (forces noise 1e-9..1e-8 / step 1e-3, |H|max ~ 50-100 eV/A^2); measured healthy:
-# asymmetry <= 6e-6 of its limit, |H_ad - H_fd| <= 2e-3 of its limit
+# second order, relative to max|H| (forces noise 1e-9..1e-8 / step 1e-3, |H|max ~ 50-100 eV/A^2)
 HESS_SYM = 1e-6
 HESS_RTOL = 1e-5
 HESS_ATOL = 2e-5
